@@ -174,6 +174,11 @@ pub fn exec_un(name: &str, a: &BigDecimal) -> BigDecimal {
         "neg" => a.clone().neg(),
         "negref" => (&a.clone()).neg(),
         "abs" => a.abs(),
+        "abs_signed" => bigdecimal::num_traits::Signed::abs(a),
+        "abs_ref" => a.to_ref().abs().to_owned(),
+        "neg_dref" => a.to_ref().neg().to_owned(),
+        "signum" => bigdecimal::num_traits::Signed::signum(a),
+        "abs_sub0" => bigdecimal::num_traits::Signed::abs_sub(a, &BigDecimal::from(0)),
         "double" => a.double(),
         "half" => a.half(),
         "square" => a.square(),
@@ -315,7 +320,7 @@ pub fn generate(rng: &mut Rng, tier: &str, shard: usize, nshards: usize, out: &m
             }
         }
     }
-    let un = ["neg", "negref", "abs", "double", "half", "square", "cube"];
+    let un = ["neg", "negref", "abs", "double", "half", "square", "cube", "abs_signed", "abs_ref", "neg_dref", "signum", "abs_sub0"];
     for name in un {
         for _ in 0..p.per_op {
             n += 1;
